@@ -215,3 +215,29 @@ more('C18', 'who-may-read rule on the latest-record view; axis labels of per-rep
      'C18.k run() results from all records; C18.g (extended) per-repetition block is (instances, qubits), zero-repetition records are (0, instances, qubits); '
      'C18.m the fast histogram declines whenever base**n exceeds int64; C18.l rows never from aggregated counts')
 more('C19', 'PhasedXPowGate export by interpretation', 'C19.i PhasedXPowGate._qasm_ == Z^p X^e Z^-p on an (e, p) grid, delegations followed')
+
+# round 6 (session 3): rules from round-6 misses, from defects reported by the round-6 reviewers, and from reviewer twins
+more('C01', 'ordering rule on named initial states', 'C01.l a ProductState initial state is written in the qubit order of the simulation before it becomes a bare vector')
+more('C02', 'effect rule on confusion-map keys; helper-following guard rule', 'C02.n every consumer of confusion_map.items() uses the key tuple position by position, never through one picked element or a slice; '
+     'C02.j (generalised) an extracted private helper is judged at each of its call sites')
+more('C05', 'bookkeeping rules of the insertion routines (growth accounting, key-aware placement, one forward cursor, one reference index per batch)',
+     'C05.m batch_insert accounts for earlier insertions by the growth of the circuit; C05.n placement routines also consult measurement / control keys (1 known finding: frontier-based insertion); '
+     'C05.o insert_into_range keeps one forward-moving cursor; C05.p the reference index of Circuit.insert follows placements once per batch, not per item')
+more('C07', 'interpretation of the AQT single-qubit shortcut on model powers of H', 'C07.i the hard-wired single-qubit replacement of the AQT target gateset equals the gate it replaces')
+more('C08', 'identity-vs-equality rule on predicates; interpretation of equivalence-group keys; interpretation of CliffordGate.__pow__ over the model group Z',
+     'C08.q predicate methods never answer with a bare `a is b` of two non-singleton values; C08.r qubits given the same equivalence-group key are exchangeable in the matrix '
+     '(PhasedFSimGate on a grid incl. special angles; three-qubit families on their tables); C08.s square-and-multiply of CliffordGate.__pow__ returns the k-th power for |k| <= 40')
+more('C10', 'accumulator rule on sweep rewrites', 'C10.j a loop that rebuilds a sweep appends exactly one point per point, into a list')
+more('C11', 'repr/equality field coherence', 'C11.o __repr__ of every JSON-serializable value-equality class reads each field its equality reads (derived / fixed fields tabled)')
+more('C12', 'dimension rule on the sub-circuit matrix product; interpretation of rescoping on model keys',
+     'C12.q CircuitOperation._unitary_ brings the matrices of the body to one dimension before multiplying; C12.r moments see keys of earlier moments only, sub-circuits keep enclosing keys by path length and record path + parent path')
+more('C13', 'interpretation of CliffordGate.__pow__ over the model group Z', 'C13.m square-and-multiply returns the k-th power for every integer |k| <= 40')
+more('C14', 'dependence rule on the phase of PauliString powers', 'C14.n every non-refusing return of PauliString.__pow__ depends on the phase of the coefficient')
+more('C16', 'tags-with-untagged rule in the circuit writer; subclass-recognition rule in sweep converters',
+     'C16.u a branch that serializes `<op>.untagged` also looks at `<op>.tags`; C16.v where a sweep class with an overriding subclass (Zip <- ZipLongest) is recognised, the subclass is tested too')
+more('C17', 'interpretation of the AQT single-qubit shortcut', 'C17.k the hard-wired single-qubit replacement of the AQT target gateset equals the gate it replaces')
+more('C19', 'field coverage of Condition._qasm_', 'C19.j _qasm_ of every Condition class reads each declared field (writes it or refuses under a test of it)')
+for _pid in ('C01', 'C02', 'C03', 'C04', 'C05', 'C06', 'C07', 'C08', 'C09', 'C10', 'C11', 'C12', 'C13', 'C14', 'C16', 'C17', 'C18', 'C19', 'C20'):
+    more(_pid, 'constructor / optional-argument purity and single-use-generator rules over the attributed functions',
+         f'{_pid}.z_ctor constructors neither store into nor mutate their arguments (unless rebound to a copy first); {_pid}.z_opt an optional dict / list / set argument is never mutated in place; '
+         f'{_pid}.z_gen a local bound to a generator is consumed at most once along any execution')
